@@ -8,7 +8,7 @@ use serde_json::json;
 use tfref::alpha::{f64_scale, gen_fracs, run_bounded, run_bounded_at, weyl_fracs};
 use tfref::big::Dy;
 
-pub const CALLS: [&str; 5] = ["mul", "mul_assign", "mul_f", "mul_assign_f", "f_mul"];
+pub const CALLS: [&str; 6] = ["mul", "mul_assign", "mul_f", "mul_assign_f", "f_mul", "mul_self"];
 
 fn in_range(hi: f64) -> bool {
     hi == 0.0 || (hi.is_finite() && hi.abs() >= 2f64.powi(-450) && hi.abs() <= 2f64.powi(450))
@@ -24,9 +24,15 @@ pub fn judge(call: usize, a: [f64; 2], b: [f64; 2], l: Option<&mut Local>) -> Ve
     if !in_range(a[0]) || !in_range(b[0]) {
         return Verdict::Skip;
     }
+    // 5: `&x * &x` with BOTH operands the same object (aliased references); judged as mul of (a, a)
+    if call == 5 && (a[0].to_bits() != b[0].to_bits() || a[1].to_bits() != b[1].to_bits()) {
+        return Verdict::Skip;
+    }
     let x = st::mk(a);
     let f = b[0];
+    let aliased = call == 5;
     let res = api(|| match call {
+        5 => &x * &x,
         0 => x * st::mk(b),
         1 => {
             let mut t = x;
@@ -41,6 +47,7 @@ pub fn judge(call: usize, a: [f64; 2], b: [f64; 2], l: Option<&mut Local>) -> Ve
         }
         _ => f * x,
     });
+    let call = if aliased { 0 } else { call };
     let r = match res {
         Ok(t) => [t.hi(), t.lo()],
         Err(m) => return Verdict::fail("no_panic", name, &args, format!("panic: {}", m), "a value".into(), "panic"),
@@ -241,6 +248,21 @@ pub fn run(r: &mut Runner) {
                 for call in 0..5usize {
                     let v = judge(call, a, b, Some(l));
                     rec.record(l, (1u64 << 62) + i * 8 + call as u64, v);
+                }
+            }
+        });
+    }
+    {
+        // the same object on both sides: `&x * &x` (aliased references), which a squaring / self-cancellation shortcut keyed on
+        // pointer identity would treat differently from two equal values; judged with the oracle of (x, x)
+        let xs = crate::fx::self_alphabet(quick, -450, 449, 401);
+        let nx = xs.len();
+        r.notes.push(format!("aliased operands (&x * &x, one object): {} operands (grid over exponents -450..449, one-call chain states, generic stream)", nx));
+        r.par("aliased operands: &x * &x", nx.div_ceil(4096), nx as u64, |c, l| {
+            for i in (c * 4096)..((c + 1) * 4096).min(nx) {
+                for call in [5usize] {
+                    let v = judge(call, xs[i], xs[i], Some(l));
+                    rec.record(l, (5u64 << 59) + (i * 4 + call % 4) as u64, v);
                 }
             }
         });
